@@ -83,8 +83,17 @@ func vxNum(kind string) uint64 {
 	return u
 }
 
-func vxInt() int       { return int(int64(vxNum("int"))) }
-func vxU64() uint64    { return vxNum("u64") }
+func vxInt() int    { return int(int64(vxNum("int"))) }
+func vxU64() uint64 { return vxNum("u64") }
+
+// vxLen returns an arbitrary int in [0, max].
+func vxLen(max int) int {
+	n := int(int64(vxNum("int")))
+	if n < 0 || n > max {
+		panic(vxAssumeFailed{})
+	}
+	return n
+}
 func vxU32() uint32    { return uint32(vxNum("u32")) }
 func vxU16() uint16    { return uint16(vxNum("u16")) }
 func vxU8() uint8      { return uint8(vxNum("u8")) }
